@@ -6,6 +6,7 @@ import (
 	"bufio"
 	"encoding/json"
 	"fmt"
+	"github.com/prometheus/client_golang/prometheus"
 	"os"
 	"runtime"
 	"sort"
@@ -92,6 +93,9 @@ func execute(t *testing.T, sc *Scenario, tier string, gen, sched, fault *simrt.T
 		cfg.Tick = fault.Draw(2) == 1
 	}
 	simrt.ReinitAll()
+	// (the process-wide registry of the metrics library is part of a fresh process too)
+	freshReg := prometheus.NewRegistry()
+	prometheus.DefaultRegisterer, prometheus.DefaultGatherer = freshReg, freshReg
 	res := simrt.Run(t, cfg, func() { sc.Run(rc) })
 	out := &RunOut{Steps: res.Steps, SimNS: int64(res.SimTime), Hash: fmt.Sprintf("%016x", res.Hash), FP: fmt.Sprintf("%016x", res.SchedFP),
 		Faults: res.Faults, Probes: res.Probes, Aborted: res.Aborted, Policy: res.Policy, Tasks: res.NumTasks,
